@@ -179,18 +179,33 @@ def r3_r5(ctx):
                 f, tr = g.bool_edges(bi)
                 not_local.append((bi, f if c[0] == "==" else tr))
     r = b.reachable(0, removed_edges=not_local)
-    r3.check(bool(not_local) and not any(x in r for x in tbl), "table accesses in discovered only past enr.node_id() != local_id", "discovered|local-id",
-             "a discovered record carrying the local node id can reach the routing table", loc=b.loc(b.line))
-    # local_id really is the local record's id
     outer = facts.one(re.escape(SV) + "discovered")
     po = Prov(outer, facts)
-    for bi, t in outer.calls():
-        if callee_matches(t, r"Vec::retain"):
-            clo = po.operand(t.args[1])
-            if clo[0] == "agg":
-                li = dict(clo[2]).get("local_id")
-                r3.check(li is not None and "local_enr" in fmt_short(li) and "Enr::node_id" in fmt_short(li), "local_id = local_enr.read().node_id()",
-                         "discovered|local-id-source", "local_id is %s" % (fmt_short(li) if li else "?"), loc=outer.loc(t.line))
+    retains = [(bi, t) for bi, t in outer.calls() if callee_matches(t, r"Vec::retain")]
+    main_call = [bi for bi, t in retains if po.operand(t.args[1])[0] == "agg" and str(po.operand(t.args[1])[1]).endswith(b.path.split("::")[-1]) and
+                 str(po.operand(t.args[1])[1]) == "closure:" + b.path]
+    # the exclusion may also have been done by an earlier retain over the same records: `enrs.retain(|e| e.node_id() != local_id)`
+    earlier = False
+    for bi, t in retains:
+        clo = po.operand(t.args[1])
+        if clo[0] != "agg" or not str(clo[1]).startswith("closure:") or str(clo[1]) == "closure:" + b.path:
+            continue
+        cb2 = facts.bodies.get(str(clo[1])[len("closure:"):])
+        if cb2 is None or not main_call or not all(outer.dominates(bi, m) for m in main_call):
+            continue
+        c2 = comparison(Prov(cb2, facts).local(0))
+        if c2 and c2[0] == "!=" and {fmt_short(c2[1]), fmt_short(c2[2])} == {"Enr::node_id(%s)" % (cb2.local_name(2) or "enr"), "local_id"}:
+            earlier = True
+            r3.analysed(cb2)
+    r3.check((bool(not_local) and not any(x in r for x in tbl)) or earlier, "table accesses in discovered only past enr.node_id() != local_id", "discovered|local-id",
+             "a discovered record carrying the local node id can reach the routing table", loc=b.loc(b.line))
+    # local_id really is the local record's id
+    for bi, t in retains:
+        clo = po.operand(t.args[1])
+        if clo[0] == "agg" and "local_id" in dict(clo[2]):
+            li = dict(clo[2]).get("local_id")
+            r3.check(li is not None and "local_enr" in fmt_short(li) and "Enr::node_id" in fmt_short(li), "local_id = local_enr.read().node_id()",
+                     "discovered|local-id-source", "local_id is %s" % (fmt_short(li) if li else "?"), loc=outer.loc(t.line))
     # R5
     for bi, t in b.calls():
         if short(t.callee() or "") != KT + "update_node":
